@@ -3,3 +3,5 @@ pub mod tamper;
 pub mod binding;
 pub mod nopanic;
 pub mod spec;
+pub mod nonce;
+pub mod timeclaims;
